@@ -39,6 +39,13 @@ std::enable_if_t<
     T>
 determinant(fcppt::math::matrix::object<T, N, N, S> const &_matrix)
 {
+  // The determinant of the empty matrix is the empty product. This is what makes
+  // the adjugate of a 1x1 matrix the identity.
+  if constexpr (N == 0U)
+  {
+    return fcppt::literal<T>(1);
+  }
+
   return fcppt::algorithm::fold(
       fcppt::math::int_range_count<N>{},
       fcppt::literal<T>(0),
